@@ -80,14 +80,17 @@ func drawTarget(t *rapid.T, tree *gens.ONode, feat map[string]any) jp.Expr {
 		feat["root_target"] = true
 		return x
 	}
-	// optional descent replacing a prefix
+	// descents may stand anywhere and more than once: each one swallows zero or more steps of the walk
+	// (a target never ends in a bare descent)
 	from := 0
-	if len(steps) > 1 && sim.Intn(t, 4, "descent") == 3 {
-		from = 1 + sim.Intn(t, len(steps)-1, "dfrom")
-		x = x.D()
-		feat["descent"] = true
-	}
 	for i := from; i < len(steps); i++ {
+		if sim.Intn(t, 6, "descent") == 5 {
+			x = x.D()
+			feat["descent"] = true
+			if skip := len(steps) - 1 - i; skip > 0 {
+				i += sim.Intn(t, skip+1, "dskip")
+			}
+		}
 		s := steps[i]
 		last := i == len(steps)-1
 		kind := sim.Weighted(t, "frag", 8, 3, 3, 2, 2, 1)
